@@ -1140,3 +1140,611 @@ lx_harness! {
         assert!(false, "TWIN: reachable");
     }
 }
+
+// =============================================================================================
+// The inline arms of lex_token (ExpectSymbol, ExpectSemiOrEOF, WsOrCStyleCommentOnly,
+// MakeCheckpoint, MacroDefName): the real lex_token with its 17 dispatch targets cut off.
+
+impl<'src> Lexer<'src> {
+    pub(crate) fn dead_c(&mut self, _c: char) {
+        kani::assume(false);
+    }
+    pub(crate) fn dead_cb(&mut self, _c: char, _b: bool) {
+        kani::assume(false);
+    }
+    pub(crate) fn dead_cfu(&mut self, _c: char, _f: MacroEvalExprFlags, _u: u32) {
+        kani::assume(false);
+    }
+    pub(crate) fn dead_cbu(&mut self, _c: char, _b: bool, _u: u32) {
+        kani::assume(false);
+    }
+    pub(crate) fn dead_ca(&mut self, _c: char, _f: MacroArgNameValueFlags) {
+        kani::assume(false);
+    }
+    pub(crate) fn dead_cau(&mut self, _c: char, _f: MacroArgNameValueFlags, _u: u32) {
+        kani::assume(false);
+    }
+    pub(crate) fn dead_cbo(&mut self, _c: char, _b: bool, _e: Option<ErrorKind>) {
+        kani::assume(false);
+    }
+}
+
+macro_rules! lx_token_harness {
+    ($(#[$m:meta])* fn $name:ident() $body:block) => {
+        lx_harness! {
+            #[kani::stub(Lexer::dispatch_mode_default, Lexer::dead_c)]
+            #[kani::stub(Lexer::dispatch_mode_str_expr, Lexer::dead_cb)]
+            #[kani::stub(Lexer::dispatch_mode_macro_eval, Lexer::dead_cfu)]
+            #[kani::stub(Lexer::dispatch_macro_str_quoted_expr, Lexer::dead_cbu)]
+            #[kani::stub(Lexer::lex_maybe_macro_call_args_or_label, Lexer::dead_cb)]
+            #[kani::stub(Lexer::lex_maybe_macro_call_arg_assign, Lexer::dead_ca)]
+            #[kani::stub(Lexer::lex_maybe_tail_macro_call_arg_value, Lexer::dead_c)]
+            #[kani::stub(Lexer::dispatch_macro_call_arg_or_value, Lexer::dead_ca)]
+            #[kani::stub(Lexer::dispatch_macro_call_arg_value, Lexer::dead_cau)]
+            #[kani::stub(Lexer::lex_maybe_macro_def_args, Lexer::dead_c)]
+            #[kani::stub(Lexer::dispatch_macro_def_arg, Lexer::dead_c)]
+            #[kani::stub(Lexer::lex_macro_def_next_arg_or_default_value, Lexer::dead_c)]
+            #[kani::stub(Lexer::dispatch_macro_do, Lexer::dead_c)]
+            #[kani::stub(Lexer::dispatch_macro_local_global, Lexer::dead_cb)]
+            #[kani::stub(Lexer::dispatch_macro_name_expr, Lexer::dead_cbo)]
+            #[kani::stub(Lexer::dispatch_macro_semi_term_text_expr, Lexer::dead_c)]
+            #[kani::stub(Lexer::dispatch_macro_stat_opts_text_expr, Lexer::dead_c)]
+            $(#[$m])*
+            fn $name() $body
+        }
+    };
+}
+
+pub(crate) fn expected_char(tt: TokenType) -> char {
+    match tt {
+        TokenType::RPAREN => ')',
+        TokenType::ASSIGN => '=',
+        TokenType::LPAREN => '(',
+        TokenType::COMMA => ',',
+        _ => '/',
+    }
+}
+
+pub(crate) fn any_expectable() -> TokenType {
+    match kani::any::<u8>() % 5 {
+        0 => TokenType::RPAREN,
+        1 => TokenType::ASSIGN,
+        2 => TokenType::LPAREN,
+        3 => TokenType::COMMA,
+        _ => TokenType::FSLASH,
+    }
+}
+
+lx_token_harness! {
+    #[kani::unwind(5)]
+    fn lx_token_expect_symbol() {
+        let t = Txt::<2, 12>::any(PFX, &[]);
+        kani::assume(t.n >= 1);
+        let tt = any_expectable();
+        let ch = if kani::any() { TokenChannel::DEFAULT } else { TokenChannel::HIDDEN };
+        let mut lx = setup(&t, &[LexerMode::Default, LexerMode::MacroEval { macro_eval_flags: any_eval_flags(), pnl: kani::any() }, LexerMode::ExpectSymbol(tt, ch)]);
+        shadow::preload_token(shadow::mk_token(TokenChannel::DEFAULT, TokenType::MacroString, 1, 1, 0, Payload::None));
+        let pre = snapshot(&lx, &t);
+        lx.lex_token(t.ch[0]);
+        let pi = check_common(&lx, &t, &pre);
+        check_progress::<2, 12, 2>(&lx, &t, &pre, pi);
+        assert!(lx.mode_stack.len() == pre.stack_len - 1, "C14: an expectation is consumed by exactly one step");
+        assert!(shadow::tok_n() == pre.tok_n + 1, "C14: the expected symbol always yields one token");
+        let tk = shadow::tok(pre.tok_n);
+        assert!(tk.token_type == tt && tk.channel == ch, "C14/C06: token of the expected type on the expected channel");
+        assert!(tk.byte_offset.get() as usize == t.byte_at(pre.pi), "C14: recovery token where the symbol was expected");
+        if t.ch[0] == expected_char(tt) {
+            assert!(pi == pre.pi + 1 && lx.errors.len() == pre.err_n, "C14/C09: the symbol is consumed without error");
+        } else {
+            assert!(pi == pre.pi, "C09/C14: a missing symbol consumes nothing (zero-width recovery token)");
+            assert!(lx.errors.len() == pre.err_n + 1 && lx.errors[pre.err_n].error_kind() == missing_kind(tt), "C09/C14: the missing symbol is reported with its own error kind");
+            assert!(lx.errors[pre.err_n].at_byte_offset() as usize == t.byte_at(pre.pi), "C09/C14: error at the offset of the recovery token");
+            assert!(lx.errors[pre.err_n].last_token().map(|x| x.get() as usize) == Some(pre.tok_n - 1), "C09: the error names the token before the recovery token");
+        }
+        kani::cover!(t.ch[0] == ')' && tt == TokenType::RPAREN && ch == TokenChannel::HIDDEN);
+        kani::cover!(t.ch[0] != ',' && tt == TokenType::COMMA);
+        std::mem::forget(lx);
+    }
+}
+
+lx_token_harness! {
+    #[kani::unwind(5)]
+    fn lx_token_expect_semi() {
+        let t = Txt::<2, 12>::any(PFX, &[]);
+        kani::assume(t.n >= 1);
+        let mut lx = setup(&t, &[LexerMode::Default, LexerMode::ExpectSemiOrEOF]);
+        shadow::preload_token(shadow::mk_token(TokenChannel::DEFAULT, TokenType::KwmEnd, 1, 1, 0, Payload::None));
+        let pre = snapshot(&lx, &t);
+        lx.lex_token(t.ch[0]);
+        let pi = check_common(&lx, &t, &pre);
+        check_progress::<2, 12, 2>(&lx, &t, &pre, pi);
+        assert!(lx.mode_stack.len() == pre.stack_len - 1 && shadow::tok_n() == pre.tok_n + 1, "C14: the semicolon expectation yields one token and is consumed");
+        let tk = shadow::tok(pre.tok_n);
+        assert!(tk.token_type == TokenType::SEMI && tk.channel == TokenChannel::DEFAULT && tk.byte_offset.get() as usize == t.byte_at(pre.pi), "C14/C06: SEMI token where it was expected");
+        if t.ch[0] == ';' {
+            assert!(pi == pre.pi + 1 && lx.errors.len() == pre.err_n, "C14: the semicolon is consumed without error");
+        } else {
+            assert!(pi == pre.pi && lx.errors.len() == pre.err_n + 1 && lx.errors[pre.err_n].error_kind() == ErrorKind::MissingExpectedSemiOrEOF, "C09/C14: a missing semicolon is reported and recovered with a zero-width token");
+            assert!(lx.errors[pre.err_n].at_byte_offset() as usize == t.byte_at(pre.pi), "C09/C14: error at the offset of the recovery token");
+        }
+        kani::cover!(t.ch[0] == ';');
+        kani::cover!(t.ch[0] != ';');
+        std::mem::forget(lx);
+    }
+}
+
+lx_token_harness! {
+    #[kani::unwind(6)]
+    fn lx_token_ws_only() {
+        let t = Txt::<3, 16>::any(PFX, &[]);
+        kani::assume(t.n >= 1);
+        let mut lx = setup(&t, &[LexerMode::Default, LexerMode::ExpectSymbol(TokenType::LPAREN, TokenChannel::DEFAULT), LexerMode::WsOrCStyleCommentOnly]);
+        let pre = snapshot(&lx, &t);
+        lx.lex_token(t.ch[0]);
+        let pi = check_common(&lx, &t, &pre);
+        check_progress::<3, 16, 2>(&lx, &t, &pre, pi);
+        let is_comment = t.ch[0] == '/' && ch_at(&t, 1) == Some('*');
+        if is_comment || t.ch[0].is_whitespace() {
+            assert!(pi > pre.pi && shadow::tok_n() == pre.tok_n + 1 && lx.mode_stack.len() == pre.stack_len, "C13/C14: insignificant whitespace/comments are consumed in place");
+            let tk = shadow::tok(pre.tok_n);
+            if is_comment {
+                assert!(tk.token_type == TokenType::CStyleComment && tk.channel == TokenChannel::COMMENT, "C13/C06: comment around a delimiter goes to the comment channel");
+            } else {
+                assert!(tk.token_type == TokenType::WS && tk.channel == TokenChannel::HIDDEN, "C13/C06: whitespace around a delimiter goes to the hidden channel");
+            }
+        } else {
+            assert!(pi == pre.pi && shadow::tok_n() == pre.tok_n && lx.mode_stack.len() == pre.stack_len - 1 && lx.errors.len() == pre.err_n, "C14: the first significant character ends the whitespace mode untouched");
+        }
+        kani::cover!(is_comment && pi == 3);
+        kani::cover!(t.ch[0].is_whitespace() && pi == 1 && t.n > 1);
+        std::mem::forget(lx);
+    }
+}
+
+lx_token_harness! {
+    #[kani::unwind(5)]
+    fn lx_token_make_checkpoint() {
+        let t = Txt::<2, 12>::any(PFX, &[]);
+        kani::assume(t.n >= 1);
+        let flags = any_arg_flags();
+        let mut lx = setup(&t, &[LexerMode::Default, LexerMode::MaybeMacroCallArgAssign { flags }, LexerMode::WsOrCStyleCommentOnly, LexerMode::MakeCheckpoint]);
+        shadow::preload_token(shadow::mk_token(TokenChannel::DEFAULT, TokenType::RPAREN, 1, 1, 0, Payload::None));
+        let pre = snapshot(&lx, &t);
+        lx.lex_token(t.ch[0]);
+        let pi = check_common(&lx, &t, &pre);
+        check_progress::<2, 12, 2>(&lx, &t, &pre, pi);
+        assert!(pi == pre.pi && shadow::tok_n() == pre.tok_n && lx.mode_stack.len() == pre.stack_len - 1, "C01: the checkpoint marker only pops itself");
+        let cp = lx.checkpoint.as_ref();
+        assert!(cp.is_some(), "C01/C09: the marker takes a checkpoint");
+        let cp = cp.unwrap();
+        assert!(cp.cursor.remaining_len() == lx.cursor.remaining_len() && cp.cursor.char_offset() == lx.cursor.char_offset(), "C02/C03: checkpoint is the cursor snapshot");
+        assert!(cp.mode_stack_len == lx.mode_stack.len() && cp.errors_len == lx.errors.len(), "C09: checkpoint records the stack depth and the error count");
+        assert!(super::buffer::verif::cp_counts(&cp.buffer_checkpoint) == (shadow::line_n(), shadow::tok_n(), shadow::lit_n()), "C02/C04/C07: checkpoint records the buffer lengths");
+        std::mem::forget(lx);
+    }
+}
+
+lx_token_harness! {
+    #[kani::unwind(6)]
+    fn lx_token_macro_def_name() {
+        let t = Txt::<3, 16>::any(PFX, &[]);
+        kani::assume(t.n >= 1);
+        let mut lx = setup(&t, &[LexerMode::Default, LexerMode::MacroStatOptionsTextExpr, LexerMode::MaybeMacroDefArgs, LexerMode::MacroDefName]);
+        let pre = snapshot(&lx, &t);
+        lx.lex_token(t.ch[0]);
+        let pi = check_common(&lx, &t, &pre);
+        check_progress::<3, 16, 2>(&lx, &t, &pre, pi);
+        assert!(lx.mode_stack.len() == pre.stack_len - 1, "C01: the macro name mode is consumed by one step");
+        let c0 = t.ch[0];
+        if c0.is_ascii_alphabetic() || c0 == '_' {
+            // maximal run of ASCII name characters
+            let mut e = 1;
+            let mut i = 1;
+            while i < 3 {
+                if e == i && i < t.n && (t.ch[i].is_ascii_alphanumeric() || t.ch[i] == '_') {
+                    e = i + 1;
+                }
+                i += 1;
+            }
+            assert!(pi == e && shadow::tok_n() == pre.tok_n + 1 && lx.errors.len() == pre.err_n, "C06: macro name is the maximal ASCII identifier");
+            let tk = shadow::tok(pre.tok_n);
+            assert!(tk.token_type == TokenType::Identifier && tk.channel == TokenChannel::DEFAULT, "C06: macro name is an Identifier token");
+        } else {
+            assert!(pi == pre.pi && shadow::tok_n() == pre.tok_n && lx.errors.len() == pre.err_n + 1 && lx.errors[pre.err_n].error_kind() == ErrorKind::InvalidMacroDefName, "C09: an invalid macro name is reported and nothing is consumed");
+        }
+        kani::cover!(pi == 3);
+        kani::cover!(pi == pre.pi && !c0.is_ascii());
+        std::mem::forget(lx);
+    }
+}
+
+// =============================================================================================
+// dispatch_macro_call_or_stat: the mode sequence pre-loaded for every macro keyword (C14, C10, C12-ish),
+// macro nesting / pending-statement bookkeeping (C15), MacroSep emission (C18).
+
+pub(crate) fn any_call_or_stat_kw() -> TokenTypeMacroCallOrStat {
+    let x: u16 = kani::any();
+    kani::assume(x >= TokenType::MacroIdentifier as u16 && x <= TokenType::KwmRun as u16);
+    TokenTypeMacroCallOrStat::try_from(unsafe { std::mem::transmute::<u16, TokenType>(x) }).unwrap()
+}
+
+const WS_M: LexerMode = LexerMode::WsOrCStyleCommentOnly;
+const fn exp(tt: TokenType) -> LexerMode {
+    LexerMode::ExpectSymbol(tt, TokenChannel::DEFAULT)
+}
+const fn exp_h(tt: TokenType) -> LexerMode {
+    LexerMode::ExpectSymbol(tt, TokenChannel::HIDDEN)
+}
+fn eval_m(nm: MacroEvalNumericMode, na: MacroEvalNextArgumentMode, stat: bool, semi: bool, mask: bool) -> LexerMode {
+    LexerMode::MacroEval { macro_eval_flags: MacroEvalExprFlags::new(nm, na, stat, semi, mask), pnl: 0 }
+}
+fn val_m(populate: bool, toc: bool) -> LexerMode {
+    LexerMode::MacroCallValue { flags: MacroArgNameValueFlags::new(MacroArgContext::BuiltInMacro, populate, toc), pnl: 0 }
+}
+
+/// The expectation table of DESIGN.md §4.C14 (bottom of the pushed suffix first): what must be on
+/// the stack after the keyword token. Written from the documented statement/function grammar.
+pub(crate) fn ref_preload(kw: TokenTypeMacroCallOrStat, allow_label: bool) -> ([LexerMode; 14], usize) {
+    use MacroEvalNextArgumentMode as NA;
+    use MacroEvalNumericMode as NM;
+    use TokenTypeMacroCallOrStat as K;
+    let mut m: [LexerMode; 14] = [const { LexerMode::Default }; 14];
+    let mut n = 0usize;
+    let mut push = |x: LexerMode| {
+        m[n] = x;
+        n += 1;
+    };
+    match kw {
+        K::KwmStr | K::KwmNrStr => {
+            push(exp_h(TokenType::RPAREN));
+            push(LexerMode::MacroStrQuotedExpr { mask_macro: kw == K::KwmNrStr, pnl: 0 });
+            push(exp_h(TokenType::LPAREN));
+            push(WS_M);
+        }
+        K::KwmEval | K::KwmSysevalf => {
+            let f = kw == K::KwmSysevalf;
+            push(exp(TokenType::RPAREN));
+            push(eval_m(if f { NM::Float } else { NM::Integer }, if f { NA::MacroArg } else { NA::None }, false, false, false));
+            push(WS_M);
+            push(exp(TokenType::LPAREN));
+            push(WS_M);
+        }
+        K::KwmScan | K::KwmQScan | K::KwmKScan | K::KwmQKScan | K::KwmSubstr | K::KwmQSubstr | K::KwmKSubstr | K::KwmQKSubstr => {
+            let scan = matches!(kw, K::KwmScan | K::KwmQScan | K::KwmKScan | K::KwmQKScan);
+            push(exp(TokenType::RPAREN));
+            push(eval_m(NM::Integer, if scan { NA::MacroArg } else { NA::SingleEvalExpr }, false, false, true));
+            push(WS_M);
+            push(exp(TokenType::COMMA));
+            push(val_m(false, true));
+            push(WS_M);
+            push(exp(TokenType::LPAREN));
+            push(WS_M);
+        }
+        K::KwmDatatyp | K::KwmLowcase | K::KwmKLowcase | K::KwmCmpres | K::KwmQCmpres | K::KwmKCmpres | K::KwmQKCmpres | K::KwmLeft | K::KwmQLeft | K::KwmKLeft | K::KwmQKLeft | K::KwmTrim | K::KwmQTrim | K::KwmKTrim | K::KwmQKTrim => {
+            push(exp(TokenType::RPAREN));
+            push(val_m(true, true));
+            push(WS_M);
+            push(exp(TokenType::LPAREN));
+            push(WS_M);
+        }
+        K::KwmIndex | K::KwmKIndex | K::KwmLength | K::KwmKLength | K::KwmQLowcase | K::KwmQKLowcase | K::KwmUpcase | K::KwmKUpcase | K::KwmQUpcase | K::KwmQKUpcase | K::KwmSysmexecname | K::KwmSysprod | K::KwmQuote | K::KwmNrQuote | K::KwmBquote | K::KwmNrBquote | K::KwmSuperq | K::KwmUnquote | K::KwmSymExist | K::KwmSymGlobl | K::KwmSymLocal | K::KwmSysget | K::KwmSysmacexec | K::KwmSysmacexist => {
+            push(exp(TokenType::RPAREN));
+            push(val_m(false, false));
+            push(WS_M);
+            push(exp(TokenType::LPAREN));
+            push(WS_M);
+        }
+        K::KwmCompstor | K::KwmValidchs | K::KwmVerify | K::KwmKVerify => {
+            push(exp(TokenType::RPAREN));
+            push(LexerMode::MacroCallArgOrValue { flags: MacroArgNameValueFlags::new(MacroArgContext::MacroCall, true, true) });
+            push(WS_M);
+            push(exp(TokenType::LPAREN));
+            push(WS_M);
+        }
+        K::MacroIdentifier => {
+            push(LexerMode::MaybeMacroCallArgsOrLabel { check_macro_label: allow_label });
+            push(WS_M);
+        }
+        K::KwmSysmexecdepth => {}
+        K::KwmSysfunc | K::KwmQSysfunc => {
+            push(exp(TokenType::RPAREN));
+            push(LexerMode::MaybeTailMacroArgValue);
+            push(WS_M);
+            push(exp(TokenType::RPAREN));
+            push(eval_m(NM::Float, NA::EvalExpr, false, false, true));
+            push(WS_M);
+            push(exp(TokenType::LPAREN));
+            push(WS_M);
+            push(LexerMode::MacroNameExpr(false, Some(ErrorKind::MissingSysfuncFuncName)));
+            push(WS_M);
+            push(exp(TokenType::LPAREN));
+            push(WS_M);
+        }
+        K::KwmInclude | K::KwmList | K::KwmThen | K::KwmElse => push(WS_M),
+        K::KwmReturn | K::KwmRun | K::KwmSysmstoreclear | K::KwmEnd => {
+            push(LexerMode::ExpectSemiOrEOF);
+            push(WS_M);
+        }
+        K::KwmPut | K::KwmSysexec => {
+            push(LexerMode::ExpectSemiOrEOF);
+            push(LexerMode::MacroSemiTerminatedTextExpr);
+            push(WS_M);
+        }
+        K::KwmAbort | K::KwmDisplay | K::KwmGoto | K::KwmInput | K::KwmSymdel | K::KwmSyslput | K::KwmSysrput | K::KwmWindow | K::KwmMend => {
+            push(LexerMode::ExpectSemiOrEOF);
+            push(LexerMode::MacroStatOptionsTextExpr);
+            push(WS_M);
+        }
+        K::KwmDo => {
+            push(LexerMode::MacroDo);
+            push(WS_M);
+        }
+        K::KwmTo | K::KwmBy => {
+            push(LexerMode::ExpectSemiOrEOF);
+            push(eval_m(NM::Integer, NA::None, kw == K::KwmTo, true, false));
+            push(WS_M);
+        }
+        K::KwmUntil | K::KwmWhile => {
+            push(LexerMode::ExpectSemiOrEOF);
+            push(WS_M);
+            push(exp(TokenType::RPAREN));
+            push(eval_m(NM::Integer, NA::None, false, false, false));
+            push(WS_M);
+            push(exp(TokenType::LPAREN));
+            push(WS_M);
+        }
+        K::KwmLet => {
+            push(LexerMode::ExpectSemiOrEOF);
+            push(LexerMode::MacroSemiTerminatedTextExpr);
+            push(WS_M);
+            push(exp(TokenType::ASSIGN));
+            push(WS_M);
+            push(LexerMode::MacroNameExpr(false, Some(ErrorKind::InvalidMacroLetVarName)));
+            push(WS_M);
+        }
+        K::KwmLocal | K::KwmGlobal => {
+            push(LexerMode::MacroLocalGlobal { is_local: kw == K::KwmLocal });
+            push(WS_M);
+        }
+        K::KwmIf => {
+            push(eval_m(NM::Integer, NA::None, true, true, false));
+            push(WS_M);
+        }
+        K::KwmCopy | K::KwmSysmacdelete => {
+            push(LexerMode::ExpectSemiOrEOF);
+            push(LexerMode::MacroStatOptionsTextExpr);
+            push(WS_M);
+            push(exp(TokenType::FSLASH));
+            push(WS_M);
+            push(LexerMode::MacroNameExpr(false, Some(ErrorKind::InvalidOrOutOfOrderStatement)));
+            push(WS_M);
+        }
+        K::KwmMacro => {
+            push(LexerMode::ExpectSemiOrEOF);
+            push(LexerMode::MacroStatOptionsTextExpr);
+            push(WS_M);
+            push(LexerMode::MaybeMacroDefArgs);
+            push(WS_M);
+            push(LexerMode::MacroDefName);
+            push(WS_M);
+        }
+        K::KwmSyscall => {
+            push(LexerMode::ExpectSemiOrEOF);
+            push(WS_M);
+            push(exp(TokenType::RPAREN));
+            push(eval_m(NM::Float, NA::EvalExpr, false, false, true));
+            push(WS_M);
+            push(exp(TokenType::LPAREN));
+            push(WS_M);
+            push(LexerMode::MacroNameExpr(false, Some(ErrorKind::MissingSyscallRoutineName)));
+            push(WS_M);
+        }
+    }
+    (m, n)
+}
+
+macro_rules! lx_preload_harness {
+    ($name:ident, $top:expr, $masked:literal) => {
+        lx_harness! {
+            #[kani::unwind(16)]
+            fn $name() {
+                let t = Txt::<1, 8>::any(PFX, &[]);
+                let kw = any_call_or_stat_kw();
+                let allow_label: bool = kani::any();
+                let mut lx = setup(&t, &[LexerMode::Default, $top]);
+                // look-behind: one earlier default-channel token of any type
+                let prev_tt = any_token_type();
+                shadow::preload_token(shadow::mk_token(TokenChannel::DEFAULT, prev_tt, 1, 1, 0, Payload::None));
+                let nest0: u32 = kani::any();
+                kani::assume(nest0 <= 3);
+                lx.macro_nesting_level = nest0;
+                let pend0: bool = kani::any();
+                lx.set_pending_stat(pend0);
+                let two_frames: bool = kani::any();
+                if two_frames {
+                    lx.push_pending_stat(pend0);
+                }
+                let pl0 = lx.pending_stat_stack.len();
+                let pre = snapshot(&lx, &t);
+                lx.dispatch_macro_call_or_stat(kw, allow_label);
+                let pi = check_common(&lx, &t, &pre);
+                assert!(pi == pre.pi && lx.errors.len() == pre.err_n, "C01: keyword dispatch consumes nothing and reports nothing");
+                // tokens: [MacroSep]? keyword
+                let kw_tt: TokenType = kw.into();
+                let kw_ch = if matches!(kw, TokenTypeMacroCallOrStat::KwmStr | TokenTypeMacroCallOrStat::KwmNrStr) { TokenChannel::HIDDEN } else { TokenChannel::DEFAULT };
+                #[cfg(feature = "macro_sep")]
+                let sep = needs_macro_sep(Some(prev_tt), kw_tt) && !$masked;
+                #[cfg(not(feature = "macro_sep"))]
+                let sep = false;
+                assert!(shadow::tok_n() == pre.tok_n + 1 + sep as usize, "C18: the keyword yields its token, preceded by at most one MacroSep");
+                if sep {
+                    let st = shadow::tok(pre.tok_n);
+                    assert!(st.token_type == TokenType::MacroSep && st.channel == TokenChannel::DEFAULT && matches!(st.payload, Payload::None), "C18: separator is a default-channel MacroSep");
+                    assert!(st.byte_offset == shadow::tok(pre.tok_n + 1).byte_offset, "C18: MacroSep is zero-width, at the keyword's own mark");
+                }
+                let kt = shadow::tok(pre.tok_n + sep as usize);
+                assert!(kt.token_type == kw_tt && kt.channel == kw_ch && matches!(kt.payload, Payload::None), "C06/C10: keyword token type and channel (%str/%nrstr hidden)");
+                // pre-loaded expectation sequence
+                let (exp_modes, n) = ref_preload(kw, allow_label);
+                assert!(lx.mode_stack.len() == pre.stack_len + n, "C14/C10: number of modes pre-loaded for the keyword");
+                let mut i = 0;
+                while i < 14 {
+                    if i < n {
+                        assert!(lx.mode_stack[pre.stack_len + i] == exp_modes[i], "C14/C10: expectation sequence pre-loaded for the keyword");
+                    }
+                    i += 1;
+                }
+                // bookkeeping that later code (and C15's closed-boundary configuration) relies on
+                let nest1 = match kw {
+                    TokenTypeMacroCallOrStat::KwmMacro => nest0 + 1,
+                    TokenTypeMacroCallOrStat::KwmMend => nest0.saturating_sub(1),
+                    _ => nest0,
+                };
+                assert!(lx.macro_nesting_level == nest1, "C15/C11: macro nesting level after the keyword");
+                let pl1 = lx.pending_stat_stack.len();
+                match kw {
+                    TokenTypeMacroCallOrStat::KwmDo => assert!(pl1 == pl0 + 1 && lx.pending_stat() == pend0, "C15/C11: %do opens a pending-statement frame copying the current flag"),
+                    TokenTypeMacroCallOrStat::KwmMacro => assert!(pl1 == pl0 + 1 && !lx.pending_stat(), "C15/C11: %macro opens a fresh pending-statement frame"),
+                    TokenTypeMacroCallOrStat::KwmEnd | TokenTypeMacroCallOrStat::KwmMend => assert!(pl1 == if pl0 > 1 { pl0 - 1 } else { 1 }, "C15/C11: %end/%mend close a pending-statement frame, never the last one"),
+                    _ => assert!(pl1 == pl0 && lx.pending_stat() == pend0, "C15/C11: other keywords leave the pending-statement stack alone"),
+                }
+                assert!(lx.checkpoint.is_some() == (kw == TokenTypeMacroCallOrStat::MacroIdentifier), "C01/C09: only a user macro identifier takes a checkpoint");
+                kani::cover!(sep || !cfg!(feature = "macro_sep") || $masked, "MacroSep emitted");
+                kani::cover!(kw == TokenTypeMacroCallOrStat::KwmSysfunc);
+                kani::cover!(kw == TokenTypeMacroCallOrStat::KwmQKSubstr);
+                kani::cover!(kw == TokenTypeMacroCallOrStat::KwmMend && nest0 == 1 && two_frames);
+                std::mem::forget(lx);
+            }
+        }
+    };
+}
+lx_preload_harness!(lx_preload_default, LexerMode::MacroStatOptionsTextExpr, false);
+lx_preload_harness!(lx_preload_in_arg_value, LexerMode::MacroCallValue { flags: any_arg_flags(), pnl: kani::any() }, true);
+
+// =============================================================================================
+// After a macro identifier: '(' starts arguments, ':' makes it a label, anything else rolls back
+// to right after the identifier (C01 checkpoint discipline, C02/C04 rollback, C09, C10 label+colon, C13)
+
+lx_harness! {
+    #[kani::unwind(6)]
+    fn lx_maybe_args_or_label() {
+        let t = Txt::<3, 16>::any(PFX, &[]);
+        kani::assume(t.n >= 1);
+        let check: bool = kani::any();
+        let mut lx = setup(&t, &[LexerMode::Default]);
+        let prev_tt = any_token_type();
+        shadow::preload_token(shadow::mk_token(TokenChannel::DEFAULT, prev_tt, 1, 1, 0, Payload::None));
+        // the macro identifier token just lexed (zero-width stand-in at the cursor), then what
+        // dispatch_macro_call_or_stat does for it: checkpoint + [MaybeMacroCallArgsOrLabel, Ws]
+        lx.start_token();
+        lx.emit_token(TokenChannel::DEFAULT, TokenType::MacroIdentifier, Payload::None);
+        lx.maybe_expect_macro_call_args_or_label(check);
+        let base = snapshot(&lx, &t);
+        // the Ws mode consumes a whitespace run (possibly with line feeds), then pops
+        if t.ch[0].is_whitespace() {
+            lx.start_token();
+            lx.lex_ws();
+        }
+        lx.pop_mode();
+        let mid = snapshot(&lx, &t);
+        kani::assume(mid.pi < t.n);
+        let c = t.ch[mid.pi];
+        // the macro_sep build inserts a token before the label: that arm has its own real-buffer harness
+        kani::assume(!(cfg!(feature = "macro_sep") && c == ':' && check));
+        lx.lex_maybe_macro_call_args_or_label(c, check);
+        let pi = check_common(&lx, &t, &base);
+        assert!(lx.checkpoint.is_none(), "C01: the checkpoint taken after a macro identifier is released in every arm");
+        assert!(lx.errors.len() == base.err_n, "C09: no error from the look-ahead after a macro identifier");
+        if c == '(' {
+            assert!(pi == mid.pi + 1 && shadow::tok_n() == mid.tok_n + 1, "C13: the call's own '(' is a delimiter token");
+            let tk = shadow::tok(mid.tok_n);
+            assert!(tk.token_type == TokenType::LPAREN && tk.channel == TokenChannel::DEFAULT && tk.byte_offset.get() as usize == t.byte_at(mid.pi), "C13/C10: LPAREN token at the parenthesis");
+            assert!(lx.mode_stack.len() == 4, "C14: argument modes pre-loaded after '('");
+            assert!(lx.mode_stack[1] == LexerMode::ExpectSymbol(TokenType::RPAREN, TokenChannel::DEFAULT), "C14: the closing ')' is expected");
+            assert!(lx.mode_stack[2] == LexerMode::MacroCallArgOrValue { flags: MacroArgNameValueFlags::new(MacroArgContext::MacroCall, true, true) } && lx.mode_stack[3] == LexerMode::WsOrCStyleCommentOnly, "C13: first argument may be named; leading blanks are insignificant");
+        } else if c == ':' && check {
+            assert!(pi == mid.pi + 1 && shadow::tok_n() == mid.tok_n + 1 && lx.mode_stack.len() == 1, "C10: label colon consumed, mode popped");
+            let tk = shadow::tok(mid.tok_n);
+            assert!(tk.token_type == TokenType::COLON && tk.channel == TokenChannel::HIDDEN, "C10/C06: a macro label is followed by its hidden colon");
+            assert!(shadow::tok(base.tok_n - 1).token_type == TokenType::MacroLabel, "C10: the macro identifier before ':' becomes a MacroLabel");
+        } else {
+            // rollback to right after the identifier: whitespace token and its lines are discarded
+            assert!(pi == base.pi && shadow::tok_n() == base.tok_n && shadow::line_n() == base.line_n && lx.mode_stack.len() == 1, "C02/C04: rollback discards the speculative whitespace token, its lines and the look-ahead modes");
+            assert!(lx.cur_token_byte_offset.get() as usize == t.byte_at(base.pi), "C02: rollback restores the token start mark");
+            assert!(shadow::tok(base.tok_n - 1).token_type == TokenType::MacroIdentifier, "C10: without ':' the identifier stays a macro identifier");
+        }
+        kani::cover!(c == '(' && mid.pi > 0);
+        kani::cover!(c == ':' && check && t.nl_upto(mid.pi) > 0);
+        kani::cover!(c != '(' && c != ':' && t.nl_upto(mid.pi) > 0, "rollback over a line feed");
+        std::mem::forget(lx);
+    }
+}
+
+/// The label arm in the macro_sep build: a MacroSep is inserted before the label, at the label's
+/// own mark. `insert_token` is replaced by the shadow (proved equivalent in buffer.rs);
+/// `iter_token_infos` returns an opaque iterator type and cannot be stubbed, so the real token vector
+/// mirrors the shadow tokens as they are when the iterator runs (label already retyped).
+/// (With the real buffer CBMC runs out of memory at 40 GB on Vec::insert's memmove.)
+#[cfg(feature = "macro_sep")]
+lx_harness! {
+    #[kani::unwind(6)]
+    #[kani::stub(WorkTokenizedBuffer::insert_token, WorkTokenizedBuffer::sh_insert_token)]
+    fn lx_label_sep() {
+        let t = Txt::<2, 12>::any(PFX, &[]);
+        kani::assume(t.n >= 1);
+        let mut lx = setup(&t, &[LexerMode::Default]);
+        let prev_tt = any_token_type();
+        let has_prev: bool = kani::any();
+        if has_prev {
+            shadow::preload_token(shadow::mk_token(TokenChannel::DEFAULT, prev_tt, 1, 1, 0, Payload::None));
+        }
+        lx.start_token();
+        lx.emit_token(TokenChannel::DEFAULT, TokenType::MacroIdentifier, Payload::None);
+        let label_at = shadow::tok_n() - 1;
+        let label = shadow::tok(label_at);
+        lx.maybe_expect_macro_call_args_or_label(true);
+        let base = snapshot(&lx, &t);
+        if t.ch[0].is_whitespace() {
+            lx.start_token();
+            lx.lex_ws();
+        }
+        lx.pop_mode();
+        let mid = snapshot(&lx, &t);
+        kani::assume(mid.pi < t.n && t.ch[mid.pi] == ':');
+        // mirror (label shown as already retyped, which is the state iter_token_infos observes)
+        let n0 = shadow::tok_n();
+        assert!(n0 <= 3);
+        let mut mir = [label; 3];
+        let mut i = 0;
+        while i < 3 {
+            if i < n0 {
+                mir[i] = shadow::tok(i);
+                if i == label_at {
+                    mir[i].token_type = TokenType::MacroLabel;
+                }
+            }
+            i += 1;
+        }
+        lx.buffer.verif_set_tokens(&mir, n0);
+        lx.lex_maybe_macro_call_args_or_label(':', true);
+        let sep = needs_macro_sep(if has_prev { Some(prev_tt) } else { None }, TokenType::MacroLabel);
+        let n1 = shadow::tok_n();
+        assert!(n1 == n0 + 1 + sep as usize, "C18: the label arm adds the hidden colon and at most one MacroSep");
+        let lab = shadow::tok(label_at + sep as usize);
+        assert!(lab.token_type == TokenType::MacroLabel && lab.byte_offset == label.byte_offset && lab.start == label.start && lab.line == label.line, "C10/C18: the identifier becomes the label, unchanged otherwise");
+        if sep {
+            let st = shadow::tok(label_at);
+            assert!(st.token_type == TokenType::MacroSep && st.channel == TokenChannel::DEFAULT && matches!(st.payload, Payload::None), "C18: MacroSep directly before the label");
+            assert!(st.byte_offset == label.byte_offset && st.start == label.start && st.line == label.line, "C18/C05/C04: the inserted MacroSep carries the label's own offset and line");
+        }
+        let col = shadow::tok(n1 - 1);
+        assert!(col.token_type == TokenType::COLON && col.channel == TokenChannel::HIDDEN && col.byte_offset.get() as usize == t.byte_at(mid.pi), "C10: hidden colon after the label");
+        assert!(lx.checkpoint.is_none() && lx.mode_stack.len() == 1 && lx.errors.len() == base.err_n, "C01/C18: the label arm releases the checkpoint");
+        if has_prev {
+            assert!(shadow::tok(0).token_type == prev_tt, "C18: earlier tokens are untouched");
+        }
+        kani::cover!(sep && t.ch[0] == '\n', "separator before a label whose colon is on the next line");
+        kani::cover!(!sep && has_prev);
+        std::mem::forget(lx);
+    }
+}
